@@ -121,7 +121,8 @@ func genC02(ctx *Ctx) {
 		}
 	}
 	// a few special inputs: empty, blanks, unknown symbols, empty quoted identifier
-	for _, s := range []string{"", "   ", "a $ b", "a ? 1", "\"\"", "a + \"\"", "#", "a.b", "1 2", "f(,)", "f(a,,b)", "a[1][2]", "NOT NOT a", "a = NOT b", "- - a", "a IS NULL IS NULL", "f(a,)", "@", "ſ", "ıs"} {
+	for _, s := range []string{"", "   ", "a $ b", "a ? 1", "\"\"", "a + \"\"", "#", "a.b", "1 2", "f(,)", "f(a,,b)", "a[1][2]", "NOT NOT a", "a = NOT b", "- - a", "a IS NULL IS NULL", "f(a,)", "@", "ſ", "ıs",
+		"a lıke b", "a ıs null", "a ıN b", "x NOT Lıke y", "a iſ nULL", "not falſe", "a LI\u212aE b", "a \u212a b", "nULL ıſ nULL", "a xOR b", "truE aND falSe", "a L\u0130KE b"} {
 		ctx.Count("special")
 		ctx.Input(exprInput(s, sx.L(), nil), true)
 	}
@@ -192,6 +193,19 @@ func runC02(in sx.SX) (sx.SX, string) {
 			fail = "a parser object used before: " + first + "; a new parser: " + fresh
 		} else if second != fresh {
 			fail = "the same text submitted twice to one parser object: second time " + second + "; a new parser: " + fresh
+		}
+		// ParseTokens, then ParseString of the text those tokens compose to, on one object
+		if fail == "" {
+			fp := parsers.NewExpressionParser()
+			fp.ParseString(text)
+			if toks := fp.OriginalTokens(); len(toks) > 0 {
+				c02Warm.ParseTokens(toks)
+				composed := c02Warm.Expression()
+				after := parseOutcome(c02Warm, composed)
+				if want := parseOutcome(parsers.NewExpressionParser(), composed); after != want {
+					fail = "ParseTokens(tokens of " + sx.Quote(text) + ") then ParseString(" + sx.Quote(composed) + ") on one parser object: " + after + "; a new parser: " + want
+				}
+			}
 		}
 	}
 	// the tokens the model is given are the tokens the parser saw
